@@ -9,6 +9,9 @@
 #include <atomic>
 #include <thread>
 
+#include <sys/wait.h>
+#include <unistd.h>
+
 #include "common/engine.hpp"
 #include "common/solverkit.hpp"
 #include "common/tissuegen.hpp"
@@ -65,11 +68,14 @@ struct TCase {
     unsigned plan = 1;
     int plan_max_us = 200;
     double lmin_f = 0.5;
+    double bending = 0;   // bending modulus of the epithelial face types (the lumen cells have none): cell types with different force terms
+    int lumen_first = 0;  // which class comes first in the list
     void write(vf::Writer& w) const {
         w.i(ncells), w.i(iterations), w.vd(growth), w.vd(radius);
         w.u(thread_counts.size());
         for (int t : thread_counts) w.i(t);
         w.u(plan), w.i(plan_max_us), w.d(lmin_f);
+        w.d(bending), w.i(lumen_first);
         w.nl();
     }
     static TCase read(vf::Reader& r) {
@@ -78,6 +84,7 @@ struct TCase {
         size_t n = r.u();
         for (size_t i = 0; i < n; i++) c.thread_counts.push_back((int)r.i());
         c.plan = (unsigned)r.u(), c.plan_max_us = (int)r.i(), c.lmin_f = r.d();
+        if (r.more()) c.bending = r.d(), c.lumen_first = (int)r.i();
         return c;
     }
 };
@@ -96,6 +103,8 @@ static rc::Gen<TCase> genT() {
         c.plan = (unsigned)*irange(1, 1 << 30);
         c.plan_max_us = *rc::gen::element(0, 100, 400, 1500);
         c.lmin_f = *rc::gen::element(0.5, 0.3, 0.2);  // smaller l_min: edges beyond 3 l_min are split in the first iterations
+        c.bending = *rc::gen::element(0.0, 0.02, 0.2);
+        c.lumen_first = *irange(0, 1);
         return c;
     });
 }
@@ -119,13 +128,17 @@ static bool run_once(const TCase& k, int threads, int plan_us, Digest& d, ct::Ce
     tg::Tissue t;
     for (int i = 0; i < k.ncells; i++) {
         tg::CellDesc cd;
-        cd.cls = (i % 3 == 1) ? 2 : 0;
+        cd.cls = ((i % 3 == 1) != (k.lumen_first != 0)) ? 2 : 0;
         cd.mesh = tg::ball(1, k.radius[i], V3(6.0 * (i % 3), 6.0 * (i / 3), 0.4 * i));
         t.cells.push_back(cd);
     }
     t.edge = 0.55;
     tg::Built b = tg::build(t, 10., 1., &scope);
-    for (auto& ty : b.types) ty->bulk_modulus_ = 1.0;
+    for (auto& ty : b.types) {
+        ty->bulk_modulus_ = 1.0;
+        if (ty->global_type_id_ == 0)
+            for (auto& ft : ty->face_types_) ft.bending_modulus_ = k.bending;
+    }
     for (size_t i = 0; i < b.cells.size(); i++) {
         b.cells[i]->initialize_random_properties();
         b.cells[i]->set_growth_rate(k.growth[i]);
@@ -169,21 +182,107 @@ static bool run_once(const TCase& k, int threads, int plan_us, Digest& d, ct::Ce
     std::filesystem::remove_all(dir, ec);
     return ok;
 }
+
+// Every run happens in a freshly forked child process (the parent of this sub never enters a parallel region), so that no state of a
+// previous run that lives for the life of the process - a function-local static, a cache - can make two runs agree or disagree.
+static bool write_all(int fd, const void* p, size_t n) {
+    const char* c = (const char*)p;
+    while (n) {
+        ssize_t w = ::write(fd, c, n);
+        if (w <= 0) return false;
+        c += w, n -= (size_t)w;
+    }
+    return true;
+}
+static bool read_all(int fd, void* p, size_t n) {
+    char* c = (char*)p;
+    while (n) {
+        ssize_t r = ::read(fd, c, n);
+        if (r <= 0) return false;
+        c += r, n -= (size_t)r;
+    }
+    return true;
+}
+template <class T>
+static bool put_vec(int fd, const std::vector<T>& v) {
+    uint64_t n = v.size();
+    return write_all(fd, &n, sizeof n) && (n == 0 || write_all(fd, v.data(), n * sizeof(T)));
+}
+template <class T>
+static bool get_vec(int fd, std::vector<T>& v) {
+    uint64_t n = 0;
+    if (!read_all(fd, &n, sizeof n) || n > (1ull << 28)) return false;
+    v.resize(n);
+    return n == 0 || read_all(fd, v.data(), n * sizeof(T));
+}
+// returns 1 ok, 0 the run threw (err), -1 the child died (err)
+static int run_once_forked(const TCase& k, int threads, int plan_us, Digest& d, long& remesh_changes, std::string& err) {
+    int fds[2];
+    if (pipe(fds) != 0) {
+        err = "pipe failed";
+        return -1;
+    }
+    fflush(nullptr);
+    pid_t pid = fork();
+    if (pid == 0) {
+        close(fds[0]);
+        ct::CellScope scope;
+        Digest dd;
+        long rm = 0;
+        std::string e;
+        uint8_t ok = run_once(k, threads, plan_us, dd, scope, rm, e) ? 1 : 0;
+        std::vector<char> st(dd.stats.begin(), dd.stats.end()), ev(e.begin(), e.end());
+        int64_t rm64 = rm;
+        bool w = write_all(fds[1], &ok, 1) && write_all(fds[1], &rm64, sizeof rm64) && put_vec(fds[1], dd.pos) && put_vec(fds[1], dd.mom) && put_vec(fds[1], dd.conn) &&
+                 put_vec(fds[1], st) && put_vec(fds[1], ev);
+        close(fds[1]);
+        _exit(w ? 0 : 3);
+    }
+    close(fds[1]);
+    if (pid < 0) {
+        close(fds[0]);
+        err = "fork failed";
+        return -1;
+    }
+    uint8_t ok = 0;
+    int64_t rm64 = 0;
+    std::vector<char> st, ev;
+    bool got = read_all(fds[0], &ok, 1) && read_all(fds[0], &rm64, sizeof rm64) && get_vec(fds[0], d.pos) && get_vec(fds[0], d.mom) && get_vec(fds[0], d.conn) && get_vec(fds[0], st) &&
+               get_vec(fds[0], ev);
+    close(fds[0]);
+    int status = 0;
+    waitpid(pid, &status, 0);
+    if (!got || !WIFEXITED(status) || WEXITSTATUS(status) != 0) {
+        std::ostringstream os;
+        os << "the run with " << threads << " thread(s) died in its process (" << (WIFSIGNALED(status) ? "signal " + std::to_string(WTERMSIG(status)) : "exit code " + std::to_string(WEXITSTATUS(status))) << ")";
+        err = os.str();
+        return -1;
+    }
+    d.stats.assign(st.begin(), st.end());
+    err.assign(ev.begin(), ev.end());
+    remesh_changes += (long)rm64;
+    return ok ? 1 : 0;
+}
 static std::string runT(const TCase& k, vf::Ctx& ctx) {
-    ct::CellScope scope;
     simucell3d_verif::sched_point() = sched_cb;
     Digest ref, rep;
     long remesh = 0, dummy = 0;
     std::string err;
-    if (!run_once(k, 1, 0, ref, scope, remesh, err)) {
+    int rc = run_once_forked(k, 1, 0, ref, remesh, err);
+    if (rc < 0) return err;
+    if (rc == 0) {
         ctx.count("reference_run_threw");
         return "";
     }
-    if (!run_once(k, 1, 0, rep, scope, dummy, err)) return "repeated single-threaded run threw although the first did not: " + err;
+    rc = run_once_forked(k, 1, 0, rep, dummy, err);
+    if (rc < 0) return err;
+    if (rc == 0) return "repeated single-threaded run threw although the first did not: " + err;
     if (!(ref == rep)) return "repeating the single-threaded run with the same inputs gave different results";
     for (int t : k.thread_counts) {
         Digest d;
-        if (!run_once(k, t, k.plan_max_us, d, scope, dummy, err)) return "run with " + std::to_string(t) + " threads threw although the single-threaded run did not: " + err;
+        rc = run_once_forked(k, t, k.plan_max_us, d, dummy, err);
+        if (rc < 0) return err;
+        if (rc == 0) return "run with " + std::to_string(t) + " threads threw although the single-threaded run did not: " + err;
         if (!(d == ref)) {
             std::ostringstream os;
             os << "run with " << t << " threads (sleep plan " << k.plan << ", up to " << k.plan_max_us << " us) differs from the single-threaded run: "
@@ -191,6 +290,7 @@ static std::string runT(const TCase& k, vf::Ctx& ctx) {
             return os.str();
         }
     }
+    if (k.bending > 0) ctx.count("cell_types_with_and_without_bending");
     ctx.count("thread_counts_compared", (long long)k.thread_counts.size());
     if (remesh) ctx.count("with_remeshing");
     if (k.plan_max_us) ctx.count("with_sleep_plan");
